@@ -1133,7 +1133,7 @@ def gen_merge_correspond(ctx, n_cases):
     lines, expect = [], []
 
     def lst(xs):
-        return f"{len(xs)} " + " ".join(str(int(x)) for x in xs) if len(xs) else "0"
+        return f"{len(xs)} " + " ".join((str(int(x)) if x == x else "nan") for x in xs) if len(xs) else "0"
 
     def opt(xs):
         return "0" if xs is None else "1 " + lst(xs)
